@@ -103,6 +103,20 @@ class MinMaxLengthType(DiagCodedType):
 
         data_length = len(raw_value)
 
+        termination_sequence = self.__termination_sequence()
+        if termination_sequence:
+            # values which contain the termination sequence cannot be
+            # decoded to the value which was encoded
+            pos = raw_value.find(termination_sequence)
+            while pos >= 0:
+                if pos % len(termination_sequence) == 0:
+                    odxraise(
+                        f"The value '{internal_value!r}' contains the termination "
+                        f"sequence 0x{termination_sequence.hex()} of its MinMaxLengthType",
+                        EncodeError)
+                    break
+                pos = raw_value.find(termination_sequence, pos + 1)
+
         if data_length < self.min_length:
             odxraise(
                 f"Encoded value for MinMaxLengthType "
